@@ -1,7 +1,6 @@
 (* C10 -- witnesses (by computation) where the faithful implementation model does NOT meet the
    property: one per known finding; each shows a guard of the refinement theorems is necessary.
-   (the witnesses of the three findings with a proposed one-line fix are in Refuted/C10_mask.v, C10_zero.v, C10_hash.v:
-   each stops compiling when its fix is applied to the source and is then to be deleted with its known-findings entry) *)
+   (the findings C10-tb-mask-self, C10-zero-columns, C10-he-hash-hierarchy were repaired in /repo: f01dccf, c228306, a6983c4) *)
 Require Import SF.Prelude SF.Dtype SF.Value SF.Equal Gen.Gen_c10.
 
 (* C10-nat-values-path: NaT at the same position, skipna=False; equal or not depending on the layout of OTHER columns *)
